@@ -219,7 +219,7 @@ func verifyRefSnapshot(c *Ctx) {
 
 func init() {
 	register("C10", "translation_validation", func(c *Ctx) {
-		c.Rule("differential check against the pinned reference implementation linked into the same binary: every configuration of the catalogue (every transform x every entropy codec x shapes x lengths; all ordered transform pairs; level presets and 8-stage chains; framing: jobs, checksum widths, hints, header/headerless) is ENCODED BY THE REFERENCE writer; where the reference reader restores the input, the current reader (jobs 1 and 3) must return the same bytes and end status. Nothing is asserted about the current writer, so encoder-side repairs cannot alarm. Plus the archived corpus /verif/golden (44 streams, one per transform / entropy codec / checksum width / level) with SHA-256 of the originals. programs = reference-written streams compared; Non-trivial = non-empty input on which the reference round-trips")
+		c.Rule("differential check against the pinned reference implementation linked into the same binary: every configuration of the catalogue (every transform x every entropy codec x shapes x lengths; all ordered transform pairs; level presets and 8-stage chains; a block-size ladder 600 KB and 1.2 MB (100 KB..17 MB thorough) for every entropy codec and the size-sensitive transforms; framing: jobs, checksum widths, hints, header/headerless) is ENCODED BY THE REFERENCE writer; where the reference reader restores the input, the current reader (jobs 1 and 3) must return the same bytes and end status. Nothing is asserted about the current writer, so encoder-side repairs cannot alarm. Plus the archived corpus /verif/golden (42 streams, one per transform / entropy codec / checksum width / level) with SHA-256 of the originals. programs = reference-written streams compared; Non-trivial = non-empty input on which the reference round-trips")
 		verifyRefSnapshot(c)
 		const B = 1024
 		famFmt.Each(c, 0, func(emit func(fmtCase)) {
@@ -245,6 +245,28 @@ func init() {
 					for _, sh := range pick(c, []string{"text", "lzbound"}, []string{"text", "dna", "runs", "lzbound", "elf"}) {
 						emit(fmtCase{P: Params{t1 + "+" + t2, "HUFFMAN", 4096, 2, 32, -1, false}, Shape: sh, Len: 9000, Jobs: 3})
 					}
+				}
+			}
+			// block-size ladder: codecs pick table sizes / model parameters from the block size
+			// (TPAQ at 1, 4, 8, 16 MiB..., text codec, ROLZ, BWT at 4 MiB): one block per stream
+			ladder := pick(c, []int{600000, 1200000}, []int{100000, 300000, 600000, 1200000, 2500000, 4500000, 9000000, 17000000})
+			for _, n := range ladder {
+				for _, e := range allEntropies {
+					for _, t := range []string{"NONE", "TEXT"} {
+						if (e == "TPAQ" || e == "TPAQX" || e == "CM") && t == "TEXT" && n > 1200000 {
+							continue
+						}
+						if !c.Thorough() && t == "TEXT" && (n != 600000 || (e != "HUFFMAN" && e != "TPAQ" && e != "ANS0")) {
+							continue
+						}
+						emit(fmtCase{P: Params{t, e, 32 << 20, 1, 32, int64(n), false}, Shape: "text", Len: n, Jobs: 1})
+					}
+				}
+				for _, t := range []string{"BWT", "BWTS", "LZ", "LZX", "LZP", "ROLZ", "ROLZX", "RLT", "TEXT+UTF+BWT+RANK+ZRLT", "EXE+RLT+TEXT+UTF+DNA"} {
+					if !c.Thorough() && n != 600000 {
+						continue
+					}
+					emit(fmtCase{P: Params{t, "ANS0", 32 << 20, 2, 32, -1, false}, Shape: "mixed", Len: n, Jobs: 2})
 				}
 			}
 			for _, ps := range levelPresets {
